@@ -122,6 +122,7 @@ var props = map[string]Prop{
 		Rule: "rapid-generated well-typed programs: a left prefix of 0-3 operators, a join, 0-3 further operators (more joins allowed); every join kind (absent, innerunique, inner, leftouter); conditions: bare key, $left.a == $right.b in both orientations, extra equalities, non-equi comparisons, one-sided predicates, and/or combinations; right-hand pipelines of 0-3 operators with joins nested to depth 2 (thorough 3); right-hand sides that read an earlier `as` name; databases of three tables with overlapping key domains, duplicate rows, unmatched rows, NULL keys. Oracle as C02 (rows as multisets unless a later sort determines the order) against the reference join semantics of the C03 statement. Non-trivial = at least one join on a database that distinguishes the kinds (duplicate left rows, unmatched or NULL keys) and ((non-empty prefix and multi-operator right side) or nested join or >= 2 joins); distinct = program shape.",
 		Assumptions: []string{
 			"as C02; unqualified column references after a join are only generated for names that occur on one side",
+			"one program in six has `let k = n` in front and still uses the bare join key `on k`: the check asserts the documented meaning of a bare name after `on` ($left.k == $right.k); all other references to column k are written in backticks there",
 			"`==` between $left and $right terms is only generated as a top-level (AND-ed) condition: there pql's plain `=` and a NULL-safe equality select the same pairs",
 		},
 	},
@@ -130,7 +131,7 @@ var props = map[string]Prop{
 			{Name: "exhaustive", Test: "TestC01Exhaustive", Shards: [2]int{8, 16}, Timeout: [2]time.Duration{10 * min, 30 * min}},
 			{Name: "random", Test: "TestC01Random", Shards: [2]int{4, 16}, Checks: [2]int{1500, 40000}, SeedOffset: 1, Timeout: [2]time.Duration{10 * min, 60 * min}},
 		},
-		Rule: "exhaustive: all expression trees with <= 3 operator nodes over 27 constructors (15 binary operators, in, index, both signs, seven built-ins, one pass-through function) in the where position, once with the parentheses the grammar needs and once with every operand parenthesised; random: rapid-generated trees to depth 5 (thorough 8) with every literal spelling, quoted and qualified names, calls of all built-ins and pass-through names, explicit required and redundant parentheses, placed in twelve positions (where, project, extend named/unnamed, summarize aggregate and key, sort, take, top count and key, join on, let), one in three re-checked inside two more redundant parentheses. Oracle: Compile (under a CPU watchdog) must return; the emitted SQL must parse; the clause holding the translation is read with ClickHouse's operator precedence and evaluated on 25+ row valuations (all-NULL, single-NULL, mixed ints/strings) and must equal the value of the generator's tree under PQL semantics (==/!= never NULL, =~/!~ on lower(), built-ins by their documented meaning, any other function an injective function of its name and argument values). Non-trivial = >= 2 operator nodes or an explicit parenthesis; distinct = position x canonical tree.",
+		Rule: "exhaustive: all expression trees with <= 3 operator nodes over 27 constructors (thorough: also all trees with 4 operator nodes over 12 representative constructors) (15 binary operators, in, index, both signs, seven built-ins, one pass-through function) in the where position, once with the parentheses the grammar needs and once with every operand parenthesised; random: rapid-generated trees to depth 5 (thorough 8) with every literal spelling, quoted and qualified names, calls of all built-ins and pass-through names, explicit required and redundant parentheses, placed in twelve positions (where, project, extend named/unnamed, summarize aggregate and key, sort, take, top count and key, join on, let), one in three re-checked inside two more redundant parentheses. Oracle: Compile (under a CPU watchdog) must return; the emitted SQL must parse; the clause holding the translation is read with ClickHouse's operator precedence and evaluated on 25+ row valuations (all-NULL, single-NULL, mixed ints/strings) and must equal the value of the generator's tree under PQL semantics (==/!= never NULL, =~/!~ on lower(), built-ins by their documented meaning, any other function an injective function of its name and argument values). Non-trivial = >= 2 operator nodes or an explicit parenthesis; distinct = position x canonical tree.",
 		Assumptions: []string{
 			"SQL is read with ClickHouse's precedence table (OR < AND < NOT < IS NULL < comparison/IN < || < + - < * / % < unary sign < [ ])",
 			"values the property is silent about are don't-care and skipped: =~/!~ with a NULL operand, strcat with a NULL argument",
@@ -187,7 +188,7 @@ var props = map[string]Prop{
 	"C14": {
 		Race: true,
 		Stages: []Stage{
-			{Name: "histories", Test: "TestC14Histories", Shards: [2]int{8, 16}, Checks: [2]int{40, 2000}, Timeout: [2]time.Duration{10 * min, 120 * min}},
+			{Name: "histories", Test: "TestC14Histories", Shards: [2]int{8, 16}, Checks: [2]int{40, 500}, Timeout: [2]time.Duration{10 * min, 120 * min}},
 		},
 		Rule: "rapid-generated call histories of 5-40 calls over a pool of sources (lets that shadow a parameter of the shared map followed by calls that use that parameter, every built-in, an unknown join kind for the sorted error text, generated programs and their corruptions) mixing pql.Compile, nil / zero-value / empty-map / shared-map / private-map options, parser.Parse and parser.Scan. Each history runs sequentially in the test process (model: memo from call to result; equal calls must give equal results, nil = zero = empty options, the history repeated gives the same results, the shared map is unchanged) and once in a fresh child process built with -race whose first action is to run all calls from 2-16 goroutines released by a barrier on one shared options value: every concurrent result must equal the isolated one, the shared map must be unchanged, and the race detector must stay silent (exit status / DATA RACE report). A fresh child per history makes each one a first-use trial of the lazily initialised built-in table. Non-trivial = >= 4 goroutines, or a let that shadows a shared parameter followed by a later call using it; distinct = distinct histories.",
 		Assumptions: []string{
